@@ -62,17 +62,36 @@ def reference(n, succ, flagged, red):
 _TIMEOUTS = [0]   # per worker process: after a few non-terminating cases the rest of the chunk is not executed
 
 
-def run_case(ctx, n, edges, fl, red, names):
+HISTORIES = ["single", "premarked", "flagged_first", "last_late", "marked_includer_first"]
+
+
+def run_case(ctx, n, edges, fl, red, names, history="single"):
     if _TIMEOUTS[0] >= 3:
         return [("analysis_terminates", "not executed: 3 earlier cases of this chunk did not terminate", "returns")]
     succ = {i: set(j for (a, j) in edges if a == i) for i in range(n)}
     flagged = {i for i in range(n) if fl >> i & 1}
     ctx.db_conn.execute("DELETE FROM pages")
+    # histories: the same final page set and classifier, reached differently
+    #   premarked             flagged templates are stored with the flag already set (what a page override file does)
+    #   flagged_first         the flagged templates arrive and are analysed first, then the others arrive
+    #   last_late             all but the last template are analysed, then the last one arrives
+    #   marked_includer_first templates that include a flagged one arrive with them, the rest later
+    if history == "flagged_first":
+        late = [i for i in range(n) if i not in flagged]
+    elif history == "last_late":
+        late = [n - 1] if n > 1 else []
+    elif history == "marked_includer_first":
+        late = [i for i in range(n) if i not in flagged and not (succ[i] & flagged)]
+    else:
+        late = []
+    if len(late) == n:
+        late = []
     for i in range(n):
-        ctx.add_page("Template:" + names[i], 10, "body%d" % i)
+        if i not in late:
+            ctx.add_page("Template:" + names[i], 10, "body%d" % i, need_pre_expand=(history == "premarked" and i in flagged))
     ctx.add_page("Plain page", 0, "main namespace page")
     ctx.add_page("Module:m", 828, "return {}", model="Scribunto")
-    if red is not None:
+    if red is not None and not (late and red[0] in late):
         ctx.add_page("Template:R", 10, redirect_to="Template:" + names[red[0]])
     ctx.db_conn.commit()
     type(ctx).get_page.cache_clear()
@@ -90,6 +109,14 @@ def run_case(ctx, n, edges, fl, red, names):
     signal.signal(signal.SIGALRM, _alarm)
     signal.setitimer(signal.ITIMER_REAL, 2.0)
     try:
+        if late:
+            ctx.analyze_templates(clf)
+            for i in late:
+                ctx.add_page("Template:" + names[i], 10, "body%d" % i)
+            if red is not None and red[0] in late:
+                ctx.add_page("Template:R", 10, redirect_to="Template:" + names[red[0]])
+            ctx.db_conn.commit()
+            type(ctx).get_page.cache_clear()
         ctx.analyze_templates(clf)
     except Timeout:
         _TIMEOUTS[0] += 1
@@ -115,7 +142,7 @@ def replay(case):
     try:
         red = case["redirect"]
         res = run_case(ctx, case["n"], [tuple(e) for e in case["edges"]], case["flags"], tuple(red) if red else None,
-                       SCHEMES[case["naming"]])
+                       SCHEMES[case["naming"]], case.get("history", "single"))
     finally:
         close_ctx(ctx)
     return [{"oracle": o, "observed": ob, "expected": ex} for o, ob, ex in res]
@@ -154,26 +181,28 @@ def work(payload, skip, report):
                     reds += [(t, rf, inc) for t in range(n) for rf in (0, 1) for inc in ([None] + list(range(n)))]
                 for red in reds:
                     for sch in schemes:
-                        report(i)
-                        i += 1
-                        case = {"n": n, "edges": edges, "flags": fl, "redirect": red, "naming": sch}
-                        res = run_case(ctx, n, edges, fl, red, SCHEMES[sch])
-                        acc.case()
-                        for o, ob, ex in res:
-                            acc.violation(o, case, ob, ex)
+                        for hist in (HISTORIES if sch == schemes[0] else HISTORIES[:1]):
+                            report(i)
+                            i += 1
+                            case = {"n": n, "edges": edges, "flags": fl, "redirect": red, "naming": sch, "history": hist}
+                            res = run_case(ctx, n, edges, fl, red, SCHEMES[sch], hist)
+                            acc.case()
+                            for o, ob, ex in res:
+                                acc.violation(o, case, ob, ex)
             acc.distinct("graphs", [n, edges])
         acc.sample({"n": n, "masks": len(masks), "redirects": with_red})
     else:
         _, n, name, edges = payload
         for fl in range(1 << n):
             for red in [None, (0, 0, None), (n - 1, 1, None), (n // 2, 0, 0)]:
-                report(i)
-                i += 1
-                case = {"n": n, "family": name, "edges": edges, "flags": fl, "redirect": red, "naming": "plain"}
-                res = run_case(ctx, n, edges, fl, red, SCHEMES["plain"])
-                acc.case()
-                for o, ob, ex in res:
-                    acc.violation(o, case, ob, ex)
+                for hist in HISTORIES:
+                    report(i)
+                    i += 1
+                    case = {"n": n, "family": name, "edges": edges, "flags": fl, "redirect": red, "naming": "plain", "history": hist}
+                    res = run_case(ctx, n, edges, fl, red, SCHEMES["plain"], hist)
+                    acc.case()
+                    for o, ob, ex in res:
+                        acc.violation(o, case, ob, ex)
         acc.distinct("graphs", [n, edges])
         acc.sample({"n": n, "family": name})
     close_ctx(ctx)
@@ -206,12 +235,15 @@ def main(run):
         "rule": "every inclusion digraph (self-inclusion allowed) on 1..3 templates x every classifier flag set x every redirect placement "
                 "(none, or a redirect page R -> t for each t, flagged or not, optionally itself included by a template) x %d naming schemes"
                 "%s; 8 families (chain, ring, stars, diamond, two SCCs with a bridge, complete, self-loops) on %s templates x all flag "
-                "sets x 4 redirect placements. distinct = distinct graphs."
-                % (2 if q else 4, "" if q else "; all 65536 digraphs on 4 templates x all 16 flag sets", "5-6" if q else "5-8"),
+                "sets x 4 redirect placements; every case under %d histories that reach the same page set (one analysis; flagged templates "
+                "stored with the flag set; flagged templates analysed first, the others arriving before a second analysis; the last "
+                "template arriving late; flagged templates and their direct includers first). distinct = distinct graphs."
+                % (2 if q else 4, "" if q else "; all 65536 digraphs on 4 templates x all 16 flag sets", "5-6" if q else "5-8", len(HISTORIES)),
         "exhaustive": True,
     }
     assumptions = [
         "sequential reading of the redirect clause: fixpoint over inclusions first, then one step of redirect source<-target and target<-source marking",
         "the classifier returns used template names exactly as stored (without namespace prefix)",
+        "in a multi-analysis history 'marked' includes marks left by the earlier analysis (also marks it set through a redirect)",
     ]
     return run.finish(cov, assumptions, replay_fn=replay)
